@@ -20,41 +20,62 @@ theorem popEv_cons (s : XWState) (k : ZKind) (ev : ZEv) (rest : List ZEv)
   rw [h]
   simp only [hk, if_true]
 
+/-! ### predicates on (log of compressor calls, compressor memory) closed under the calls -/
+
+abbrev ZLog := List (ZEv × List UInt8)
+
+structure LogClosed (P : ZLog → ZSt → Prop) : Prop where
+  init : P [] {}
+  flush : ∀ l z, P l z → P (l ++ [(Z.flushEv lvl z, [])]) (z.afterFlush (Z.flushEv lvl z))
+  reset : ∀ l z, P l z → P (l ++ [({ kind := .zreset }, [])]) {}
+  write : ∀ l z (d : List UInt8), P l z →
+    P (l ++ [({ kind := .zwrite, n := d.length }, d)]) { z with data := z.data ++ d }
+
+theorem logClosed_true : LogClosed Z lvl (fun _ _ => True) := ⟨trivial, fun _ _ _ => trivial, fun _ _ _ => trivial, fun _ _ _ _ => trivial⟩
+
 /-! ### atomic steps -/
 
 theorem sync_sim (s : XWState) (z : ZSt) (rest : List ZEv) (h : s.oracle = Z.flushEv lvl z :: rest) :
     proj (flushSync s) (z.afterFlush (Z.flushEv lvl z)) = aSync Z lvl (proj s z) ∧
-      (flushSync s).oracle = rest ∧ (flushSync s).bad = s.bad ∧ (flushSync s).err = none := by
+      (flushSync s).oracle = rest ∧ (flushSync s).bad = s.bad ∧ (flushSync s).err = none ∧
+      (flushSync s).zlog = s.zlog ++ [(Z.flushEv lvl z, [])] := by
   have hp := popEv_cons s .zflush _ rest h rfl
-  refine ⟨?_, ?_, ?_, ?_⟩ <;> simp only [flushSync, hp] <;> rfl
+  refine ⟨?_, ?_, ?_, ?_, ?_⟩ <;> simp only [flushSync, hp] <;> rfl
 
 theorem encodeIndex_sim (s : XWState) (z : ZSt) :
     proj (encodeIndexStep crc s) z = aEncodeIndex crc (proj s z) ∧
-      (encodeIndexStep crc s).oracle = s.oracle ∧ (encodeIndexStep crc s).bad = s.bad := by
+      (encodeIndexStep crc s).oracle = s.oracle ∧ (encodeIndexStep crc s).bad = s.bad ∧
+      (encodeIndexStep crc s).zlog = s.zlog := by
   have hr : (proj s z).recs = s.recs := rfl
   have hb : (proj s z).backSize = s.backSize := rfl
   have hs : (proj s z).sink = s.sink := rfl
   unfold encodeIndexStep aEncodeIndex
   rw [hr, hb, hs]
   rcases hm : Meta.encode (indexPayload crc s.recs s.backSize) .fmeta with _ | blocks
-  · exact ⟨rfl, rfl, rfl⟩
+  · exact ⟨rfl, rfl, rfl, rfl⟩
   · simp only
     rcases he : emitBlocks s.sink blocks 0 with ⟨sk, acc, e⟩
     cases e with
-    | none => exact ⟨rfl, rfl, rfl⟩
-    | some err => exact ⟨rfl, rfl, rfl⟩
+    | none => exact ⟨rfl, rfl, rfl, rfl⟩
+    | some err => exact ⟨rfl, rfl, rfl, rfl⟩
 
 theorem reset_sim (s : XWState) (z : ZSt) (rest : List ZEv) (h : s.oracle = { kind := .zreset } :: rest) :
     proj (zReset (recState s)) {} = aRec (proj s z) ∧ (zReset (recState s)).oracle = rest ∧
-      (zReset (recState s)).bad = s.bad := by
+      (zReset (recState s)).bad = s.bad ∧
+      (zReset (recState s)).zlog = s.zlog ++ [({ kind := .zreset }, [])] := by
   have hp := popEv_cons (recState s) .zreset _ rest h rfl
-  refine ⟨?_, ?_, ?_⟩ <;> simp only [zReset, hp] <;> rfl
+  refine ⟨?_, ?_, ?_, ?_⟩ <;> simp only [zReset, hp] <;> rfl
 
 theorem full_sim (s : XWState) (z : ZSt) (rest : List ZEv) (h : s.oracle = endChunkEvs Z lvl z ++ rest) :
     proj (flushFull crc s) {} = aFull crc Z lvl (proj s z) ∧ (flushFull crc s).oracle = rest ∧
-      (flushFull crc s).bad = s.bad := by
-  obtain ⟨h1, h2, h3, h4⟩ := sync_sim Z lvl s z ({ kind := .zreset } :: rest) h
-  obtain ⟨r1, r2, r3⟩ := reset_sim (flushSync s) (z.afterFlush (Z.flushEv lvl z)) rest h2
+      (flushFull crc s).bad = s.bad ∧
+      ∀ P, LogClosed Z lvl P → P s.zlog z → P (flushFull crc s).zlog {} := by
+  obtain ⟨h1, h2, h3, h4, h5⟩ := sync_sim Z lvl s z ({ kind := .zreset } :: rest) h
+  obtain ⟨r1, r2, r3, r4⟩ := reset_sim (flushSync s) (z.afterFlush (Z.flushEv lvl z)) rest h2
+  have hlog : ∀ P, LogClosed Z lvl P → P s.zlog z → P (zReset (recState (flushSync s))).zlog {} := by
+    intro P hP hl
+    rw [r4, h5]
+    exact hP.reset _ _ (hP.flush _ _ hl)
   rw [flushFull_eq, if_neg (by rw [h4]; simp)]
   unfold aFull
   simp only
@@ -63,9 +84,9 @@ theorem full_sim (s : XWState) (z : ZSt) (rest : List ZEv) (h : s.oracle = endCh
   have hn : (proj (zReset (recState (flushSync s))) {}).nidx = (zReset (recState (flushSync s))).nidx := rfl
   rw [hl, hn]
   split
-  · obtain ⟨e1, e2, e3⟩ := encodeIndex_sim crc (zReset (recState (flushSync s))) {}
-    exact ⟨e1, e2.trans r2, e3.trans (r3.trans h3)⟩
-  · exact ⟨rfl, r2, r3.trans h3⟩
+  · obtain ⟨e1, e2, e3, e4⟩ := encodeIndex_sim crc (zReset (recState (flushSync s))) {}
+    exact ⟨e1, e2.trans r2, e3.trans (r3.trans h3), by rw [e4]; exact hlog⟩
+  · exact ⟨rfl, r2, r3.trans h3, hlog⟩
 
 /-- the compressor calls of `Flush(FlushIndex)`. -/
 def evsIndex (z : ZSt) : List ZEv × ZSt :=
@@ -74,7 +95,8 @@ def evsIndex (z : ZSt) : List ZEv × ZSt :=
 theorem index_sim (s : XWState) (z : ZSt) (rest : List ZEv) {n : Int} (hi : Inv n (proj s z))
     (h : s.oracle = (evsIndex Z lvl z).1 ++ rest) :
     proj (flushIndex crc s) (evsIndex Z lvl z).2 = aIndex crc Z lvl (proj s z) ∧
-      (flushIndex crc s).oracle = rest ∧ (flushIndex crc s).bad = s.bad := by
+      (flushIndex crc s).oracle = rest ∧ (flushIndex crc s).bad = s.bad ∧
+      ∀ P, LogClosed Z lvl P → P s.zlog z → P (flushIndex crc s).zlog (evsIndex Z lvl z).2 := by
   have h1 : s.zwIn = z.data.length := hi.zwIn
   have h2 : s.zwOut = z.out := hi.zwOut
   unfold flushIndex aIndex evsIndex at *
@@ -84,19 +106,19 @@ theorem index_sim (s : XWState) (z : ZSt) (rest : List ZEv) {n : Int} (hi : Inv 
   · have hz' : z.data.length + z.out > 0 := by omega
     rw [if_pos hz'] at h ⊢
     rw [if_pos hz, if_pos hz]
-    obtain ⟨f1, f2, f3⟩ := full_sim crc Z lvl s z rest h
+    obtain ⟨f1, f2, f3, f4⟩ := full_sim crc Z lvl s z rest h
     simp only
     rw [← f1]
     have he : (proj (flushFull crc s) {}).err = (flushFull crc s).err := rfl
     rw [he]
     split
-    · exact ⟨rfl, f2, f3⟩
-    · obtain ⟨e1, e2, e3⟩ := encodeIndex_sim crc (flushFull crc s) {}
-      exact ⟨e1, e2.trans f2, e3.trans f3⟩
+    · exact ⟨rfl, f2, f3, f4⟩
+    · obtain ⟨e1, e2, e3, e4⟩ := encodeIndex_sim crc (flushFull crc s) {}
+      exact ⟨e1, e2.trans f2, e3.trans f3, by rw [e4]; exact f4⟩
   · have hz' : ¬ z.data.length + z.out > 0 := by omega
     rw [if_neg hz'] at h ⊢
     rw [if_neg hz, if_neg hz]
-    obtain ⟨e1, e2, e3⟩ := encodeIndex_sim crc s z
-    exact ⟨e1, e2.trans h, e3⟩
+    obtain ⟨e1, e2, e3, e4⟩ := encodeIndex_sim crc s z
+    exact ⟨e1, e2.trans h, e3, by rw [e4]; exact fun _ _ hl => hl⟩
 
 end Compress.Proofs.XWSplit
